@@ -8,7 +8,7 @@ End-to-end refinement, part B4: one theorem per outcome over `Sql.Stmt`.
 * `evalStmt`: the dispatcher over the four DML / DDL statement kinds (everything else changes nothing).
 * `Rel db pt sch tbls sdb`: the relation all statements preserve: `AbsV` + `NoStale` + `MemFiled`.
 * `StmtRoom`: the per-statement side conditions (values a Go program can hold, `InsRunOK`, the room
-  conditions of CREATE TABLE).
+  conditions of CREATE TABLE, SET column names that are valid UTF-8).
 * `evalStmt_refines_spec`: `specStmt sdb st = some sdb'` → `evalStmt … = .ok () db'`, `Rel` again.
 * `StmtRefusal`, `evalStmt_refused_spec`: the refusals before anything changed: `specStmt sdb st = none`,
   `evalStmt … = .err e db'`, same log, `Rel` with the SAME catalog and spec database.
@@ -58,7 +58,11 @@ theorem KeepsFiled.update (table : Bytes) (rowId : Nat) (cols : List String) (sr
     KeepsFiled (update table rowId cols src) := by
   rw [update_eq_stmt]
   refine (KeepsFiled.relationOffset _).bind fun off => (KeepsFiled.fetch _).bind fun _ =>
-    (KeepsFiled.relationSchema _).bind fun schema => (KeepsFiled.scanRight _).bind fun cells =>
+    (KeepsFiled.relationSchema _).bind fun schema => ?_
+  cases checkColumns schema cols with
+  | some e => exact KeepsFiled.throw _
+  | none =>
+  refine (KeepsFiled.scanRight _).bind fun cells =>
     (KeepsFiled.mapS (fun c => ?_) _).bind fun _ => KeepsFiled.pure _
   unfold updBody
   refine KeepsFiled.ite (KeepsFiled.pure _) ((KeepsFiled.decodeRow _ _).bind fun _ =>
@@ -148,6 +152,10 @@ theorem evalUpdate_filed (db : Engine.DB) (table : Bytes) (sets : List (Bytes ×
     | ok a s' =>
       rw [e] at hk
       simp only
+      cases Engine.checkSetColumns (a.2.map fun fd => ⟨[], fd.name.toUTF8.toList⟩) [] (sets.map (·.1)) with
+      | some ec => exact hk
+      | none =>
+      simp only
       cases Engine.filterIds w (a.2.map fun fd => ⟨[], fd.name.toUTF8.toList⟩) a.1 with
       | ok sel => exact evalUpdate_go_filed db table _ _ sel s' _ hk
       | err x => exact hk
@@ -210,7 +218,10 @@ def StmtRoom (db : Engine.DB) (pt sch : Levels) (tbls : List (Bytes × Levels)) 
     ∀ tr schema, (t, tr) ∈ tbls → schemaOf sch t = some schema →
       InsRunOK schema (cols.map Engine.bytesToName) tr db.store.hdr.lastKey db.store.hdr.nextLSN
         db.store.hdr.nextFree (rows.map fun r => r.map Engine.litToVal)
-  | .update _ sets _ => ∀ p ∈ sets, ∀ l, p.2 = .lit l → ValidVal (Engine.litToVal l)
+  | .update _ sets _ =>
+    (∀ p ∈ sets, ∀ l, p.2 = .lit l → ValidVal (Engine.litToVal l)) ∧
+    -- the SET column names are valid UTF-8 (the statement's check compares the raw bytes)
+    ∀ p ∈ sets, (Spec.nameStr p.1).toUTF8.toList = p.1
   | _ => True
 
 theorem litRows_eq (rows : List (List Sql.Lit)) :
@@ -258,7 +269,8 @@ theorem evalStmt_refines_spec (db : Engine.DB) (order : List Nat) (pt sch : Leve
     · simp only [evalStmt, e, voidRes]
     · exact (evalInsert_filed db t cols _ hmf).ok e
   | update t sets w =>
-    obtain ⟨db', t', logs, e, _, habs', _⟩ := evalUpdate_refines_specV db pt sch tbls sdb sdb' habs t sets w hroom hspec
+    obtain ⟨db', t', logs, e, _, habs', _⟩ := evalUpdate_refines_specV db pt sch tbls sdb sdb' habs t sets w hroom.1
+      hroom.2 hspec
     exact ⟨db', pt, sch, setTable tbls t t', e, habs', hns.setTable t t', (evalUpdate_filed db t sets w hmf).ok e⟩
   | delete t w =>
     obtain ⟨n, db', t', logs, e, _, _, habs', _⟩ := evalDelete_refines_specV db pt sch tbls sdb sdb' habs t w hspec
@@ -288,7 +300,9 @@ inductive StmtRefusal (sdb : Spec.SDB) (pt : Levels) : Sql.Stmt → Prop
   | create (n : Bytes) (cols : List Sql.ColDef) : CreateRefusal sdb pt n cols → StmtRefusal sdb pt (.createTable n cols)
   | insert (t : Bytes) (cols : List Bytes) (r : List Sql.Lit) (rest : List (List Sql.Lit)) :
       ((Spec.findTable sdb t = none ∧ t ≠ sysPages ∧ t ≠ sysSchema) ∨
-        ∃ st, Spec.findTable sdb t = some st ∧ Spec.rowOf st cols (r.map Engine.litToVal) = none) →
+        ∃ st, Spec.findTable sdb t = some st ∧
+          (Spec.rowOf st cols (r.map Engine.litToVal) = none ∨
+            Spec.namesOK st (cols.map Spec.nameStr) = false)) →
       StmtRefusal sdb pt (.insert t cols (r :: rest))
   | update (t : Bytes) (sets : List (Bytes × Sql.VExpr)) (w : Option Sql.Cond) :
       UpdRefusal sdb t sets w → StmtRefusal sdb pt (.update t sets w)
@@ -394,25 +408,23 @@ theorem evalStmt_total (db : Engine.DB) (order : List Nat) (pt sch : Levels) (tb
           obtain ⟨_, e, db', he, _, hw, _⟩ := evalCreateTable_refused_specV db pt sch tbls sdb habs n cols order true
             (.sysPages off hs1 hoff)
           exact .inr ⟨.store e, db', he, hw⟩
-        · by_cases hlen : (cols.map Engine.colTypeToField).any
-              (fun fd => fd.len > 2147483647 || fd.len < -2147483648) = true
-          · obtain ⟨e, db', he, hw, _⟩ := evalCreateTable_catalog_refused db pt sch tbls sdb habs n cols order true
-              hfind hs1 hs2 (.inl hlen)
+        · cases hfld : checkFieldsFrom [] (cols.map Engine.colTypeToField) with
+          | some x =>
+            obtain ⟨e, db', he, hw, _⟩ := evalCreateTable_catalog_refused db pt sch tbls sdb habs n cols order true
+              hfind hs1 hs2 (.inr (.inl ⟨x, hfld⟩))
             exact .inr ⟨.store e, db', he, hw⟩
-          · cases hchk : checkCatalogRows (cols.map Engine.colTypeToField) n with
+          | none =>
+            cases hchk : checkCatalogRows (cols.map Engine.colTypeToField) n with
             | some x =>
               obtain ⟨e, db', he, hw, _⟩ := evalCreateTable_catalog_refused db pt sch tbls sdb habs n cols order true
-                hfind hs1 hs2 (.inr ⟨x, hchk⟩)
+                hfind hs1 hs2 (.inr (.inr ⟨x, hchk⟩))
               exact .inr ⟨.store e, db', he, hw⟩
             | none =>
               -- the statement gets past the checks: it succeeds
               obtain ⟨sdb0, habs0, hv⟩ := habs
               have hn3 : n ∉ tbls.map (·.1) := (findTable_none_iff_notin ⟨sdb0, habs0, hv⟩ n).mp hfind
-              have hlen' : (cols.map Engine.colTypeToField).any
-                  (fun fd => fd.len > 2147483647 || fd.len < -2147483648) = false := by
-                simpa using hlen
               obtain ⟨sN, s', pt1, nf1, ptN, schN, _, e2, _⟩ :=
-                createTable_cat habs0.cat hmf (cols.map Engine.colTypeToField) n order hs1 hs2 hn3 hlen' hchk hpd hpl
+                createTable_cat habs0.cat hmf (cols.map Engine.colTypeToField) n order hs1 hs2 hn3 hfld hchk hpd hpl
                   (by rw [List.length_map]; exact hsd) (by rw [List.length_map]; exact hsl)
                   (by rw [List.length_map]; exact hbig)
               refine .inl ⟨(), { db with store := s' }, ?_⟩
